@@ -55,3 +55,79 @@ Example ex_wire_domain :
   | None => False
   end.
 Proof. vm_compute. split; reflexivity. Qed.
+
+(* ------------------------------------------------------------------ the wire domain, from the pushed request *)
+(* an input-level predicate: every pushed OTLP span and every resource attribute lies in the round-trip domain (times uint64, kind
+   a non-negative int32, integers int64, doubles multiples of 1/8 below 2^53, no missing value directly inside a list); Zipkin
+   requests store their own text and are not concerned *)
+Definition attrs_wire_ok (a : attrs) : bool := forallb (fun kv => any_ok (snd kv)) a.
+Definition input_wire_ok (i : input) : bool :=
+  match i with
+  | InOtlp b => forallb (fun r => attrs_wire_ok (r_attrs r) && forallb span_wire_ok (List.concat (r_scopes r))) b
+  | InZipkin _ _ => true
+  end.
+
+Lemma mapM_in {A B} (f : A -> option B) : forall l ys y, mapM f l = Some ys -> In y ys -> exists x, In x l /\ f x = Some y.
+Proof.
+  induction l as [|x r IH]; intros ys y H Hin; cbn [mapM] in H.
+  - inversion H; subst. destruct Hin.
+  - destruct (f x) as [y0|] eqn:Ef; [|discriminate]. destruct (mapM f r) as [ys0|] eqn:Em; [|discriminate].
+    inversion H; subst. destruct Hin as [<-|Hin].
+    + exists x. split; [left; reflexivity|exact Ef].
+    + destruct (IH ys0 y eq_refl Hin) as (x' & Hx & Hf). exists x'. split; [right; exact Hx|exact Hf].
+Qed.
+
+Lemma populate_wire_ok a : attrs_wire_ok a = true -> attrs_wire_ok (populate a) = true.
+Proof.
+  intro H. unfold populate, attrs_wire_ok in *.
+  destruct (get_attr k_service a).
+  - destruct (get_attr k_remote a); [exact H|]. rewrite forallb_app, H. reflexivity.
+  - destruct (get_attr k_remote (a ++ [(k_service, AStr (local_name a))])).
+    + rewrite forallb_app, H. reflexivity.
+    + rewrite !forallb_app, H. reflexivity.
+Qed.
+
+Lemma otlp_span_payload ra s sr : otlp_span fixed ra s = Some sr ->
+  t_payload (fst sr) = POtlp (with_attrs s (populate (o_attrs s ++ ra))).
+Proof.
+  unfold otlp_span. destruct (flat_attrs _ _ []) as [m|]; [|discriminate]. unfold on_span.
+  destruct (negb (id_widths_ok (o_trace s) (o_span s))); [discriminate|]. intro H. inversion H; subst. reflexivity.
+Qed.
+
+Lemma otlp_span_wire_ok ra s sr p : attrs_wire_ok ra = true -> span_wire_ok s = true ->
+  otlp_span fixed ra s = Some sr -> t_payload (fst sr) = POtlp p -> span_wire_ok p = true.
+Proof.
+  intros Hra Hs Ho Hp. rewrite (otlp_span_payload ra s sr Ho) in Hp. inversion Hp; subst p.
+  unfold span_wire_ok in *. cbn [with_attrs o_start o_end o_kind o_attrs].
+  apply andb_true_iff in Hs. destruct Hs as [Hs Ha]. rewrite Hs. cbn [andb].
+  apply populate_wire_ok. unfold attrs_wire_ok. rewrite forallb_app. fold (attrs_wire_ok (o_attrs s)).
+  unfold attrs_wire_ok in *. rewrite Ha, Hra. reflexivity.
+Qed.
+
+(* the parser's output lies in the wire domain whenever the pushed request does *)
+Theorem wire_domain_of_input_l : forall inp rows,
+  decode fixed inp = Some rows -> input_wire_ok inp = true -> wire_domain rows.
+Proof.
+  intros inp rows Hd Hok sr p Hin Hp. destruct inp as [b|nd es]; cbn [decode input_wire_ok] in *.
+  - unfold otlp_decode in Hd. destruct (mapM (otlp_res fixed) b) as [rss|] eqn:Em; [|discriminate].
+    cbn [option_map] in Hd. inversion Hd; subst rows. apply in_concat in Hin. destruct Hin as (rs & Hrs & Hin).
+    destruct (mapM_in _ _ _ _ Em Hrs) as (r & Hr & Hres).
+    rewrite forallb_forall in Hok. specialize (Hok r Hr). apply andb_true_iff in Hok. destruct Hok as [Hra Hss].
+    unfold otlp_res in Hres. destruct (r_has_res r).
+    + destruct (mapM_in _ _ _ _ Hres Hin) as (s & Hs & Hspan).
+      rewrite forallb_forall in Hss. apply (otlp_span_wire_ok (r_attrs r) s sr p Hra (Hss s Hs) Hspan Hp).
+    + destruct (List.concat (r_scopes r)); [|discriminate]. inversion Hres; subst rs. destruct Hin.
+  - apply In_nth_error in Hin. destruct Hin as [k Hk].
+    destruct (zipkin_payload_is_own_text nd es rows Hd k sr Hk) as [Hpl _]. rewrite Hpl in Hp. discriminate.
+Qed.
+
+(* read_back over the stored bytes with the domain stated on the PUSHED request *)
+Theorem read_back_bytes_of_input_l : forall inp rows ps,
+  decode fixed inp = Some rows -> pushed_of inp = Some ps -> in_range inp -> input_wire_ok inp = true ->
+  Forall2 (fun p sr => reads_back p (read_row_wire fixed (in_elems inp) (fst sr) (payload_bytes (t_payload (fst sr))))) ps rows.
+Proof.
+  intros inp rows ps Hd Hp Hr Hok. apply (read_back_wire_l inp rows ps Hd Hp Hr (wire_domain_of_input_l inp rows Hd Hok)).
+Qed.
+
+Example ex_input_wire_ok : input_wire_ok ex_otlp = true /\ decode fixed ex_otlp <> None.
+Proof. split; [vm_compute; reflexivity|vm_compute; discriminate]. Qed.
